@@ -44,6 +44,10 @@ M = [
     ("C13", "r7: boundary judgement only for positional arguments", [
         (I, "            if var.type is not None and not (\n                var.type._subtype(Type._from_onnx(i.type))\n            ):", "            if False:"),
         (P, "        for name, arg in zip(in_names, args):\n            if name in kwargs:", "        for i, (name, arg) in enumerate(zip(in_names, args)):\n            expected = Type._from_onnx(model.graph.input[i].type)\n            if arg.type is not None and not arg.type._subtype(expected):\n                raise TypeError('boundary')\n            if name in kwargs:")]),
+    ("C13", "r10: `broadcast` lenient when a symbolic axis is present (constant clash becomes an unknown dimension)", [(S, '        except ShapeError as e:\n            raise ShapeError(\n                f"Could not broadcast shapes: {self.to_simple()}, {other.to_simple()}."\n            ) from e', '        except ShapeError as e:\n            if any(not isinstance(d, int) for d in a + b):  # symbolic: let the runtime decide\n                return Shape.from_simple(tuple(\n                    None if (isinstance(x, int) and isinstance(y, int) and x != y and 1 not in (x, y)) else _broadcast_elem(x, y)\n                    for x, y in zip(a, b)))\n            raise ShapeError(\n                f"Could not broadcast shapes: {self.to_simple()}, {other.to_simple()}."\n            ) from e')]),
+    ("C13", "r10: `can_broadcast` answers False early when the ranks differ and the shorter shape has no 1", [(S, '        """Check if this shape can be broadcast with ``other``."""\n        try:\n', '        """Check if this shape can be broadcast with ``other``."""\n        o = other if isinstance(other, Shape) else Shape.from_simple(other)\n        if self.dims is not None and o.dims is not None and len(self.dims) != len(o.dims):\n            short = min(self.to_simple(), o.to_simple(), key=len)\n            if short and 1 not in short:\n                return False\n        try:\n')]),
+    ("C13", "r10: `unwrap_tensor` looks through an Optional", [(T, '        if not isinstance(self, Tensor):\n            raise TypeError(f"Cannot unwrap requested Tensor type from {self}")', '        if isinstance(self, Optional) and isinstance(self.elem_type, Tensor):\n            return self.elem_type\n        if not isinstance(self, Tensor):\n            raise TypeError(f"Cannot unwrap requested Tensor type from {self}")')]),
+    ("C13", "r10: `Shape.__getitem__` counts negative indices from the padded rank (off by one)", [(S, "        return self.dims[item]\n", "        return self.dims[item - 1 if isinstance(item, int) and item < -1 else item]\n")]),
     # ------------------------------------------------------------------ C16
     ("C16", "fix reverted in `type_warning_level` (no try/finally)", [(F, "    try:\n        yield\n    finally:\n        set_type_warning_level(prev_level)", "    yield\n    set_type_warning_level(prev_level)")]),
     ("C16", "fix reverted in `operator_overloading`", [(F, "    try:\n        yield\n    finally:\n        Var._operator_dispatcher = prev_dispatcher", "    yield\n    Var._operator_dispatcher = prev_dispatcher")]),
@@ -78,6 +82,8 @@ M = [
     ("C17", "r6: the same check inside `Var.__add__`", [(V, "        return Var._operator_dispatcher.add(self, other)", "        if isinstance(other, Var):\n            sa, sb = self.unwrap_tensor().shape, other.unwrap_tensor().shape\n            if sa is not None and sb is not None:\n                for m, n in zip(reversed(sa), reversed(sb)):\n                    if m is not None and n is not None and m != n and 1 not in (m, n):\n                        raise ValueError('shapes do not broadcast')\n        return Var._operator_dispatcher.add(self, other)")]),
     ("C17", "r6: `sub(a, a)` short-cut to a scalar zero", [(F, "    def sub(self, a, b) -> Var:\n        a, b = self._promote(a, b)", "    def sub(self, a, b) -> Var:\n        if a is b and isinstance(a, Var):\n            return self.op.const(np.array(0, a.unwrap_tensor().dtype))\n        a, b = self._promote(a, b)")]),
     ("C17", "r6: signed `//` correction skipped for the v21 module", [(F, "            c.type._elem_type, np.signedinteger\n        ):", "            c.type._elem_type, np.signedinteger\n        ) and not self.op.__name__.endswith('v21'):")]),
+    ("C17", "r10: `~` pushed inwards through `And` with a De Morgan mistake (`~(a & b)` -> `~a & ~b`)", [(F, "    def not_(self, a: Var) -> Var:\n        return self.op.not_(a)", "    def not_(self, a: Var) -> Var:\n        node = a._op\n        if node.op_type.identifier == 'And':  # push the negation inwards\n            x, y = node.inputs.get_vars().values()\n            return self.op.and_(self.op.not_(x), self.op.not_(y))\n        return self.op.not_(a)")]),
+    ("C17", "r10: unary minus routed through `mul(a, -1)` (needs constant promotion; refuses with it off)", [(F, "    def neg(self, a: Var) -> Var:\n        return self.op.neg(a)", "    def neg(self, a: Var) -> Var:\n        return self.mul(a, -1)")]),
     ("C17", "r8: `type_promotion = type_promotion or <enclosing block's>` (explicit False lost)", [(F, "    prev_dispatcher = Var._operator_dispatcher\n    Var._operator_dispatcher = _NumpyLikeOperatorDispatcher(", "    prev_dispatcher = Var._operator_dispatcher\n    type_promotion = type_promotion or getattr(prev_dispatcher, 'type_promotion', False)\n    Var._operator_dispatcher = _NumpyLikeOperatorDispatcher(")]),
     ("C17", "r8: whole-number Python floats accepted next to integer Vars (promotion off)", [(F, "                    if issubclass(np.result_type(value).type, np.floating)\n", "                    if issubclass(np.result_type(value).type, np.floating)\n                    and not (isinstance(value, float) and value.is_integer())\n")]),
 ]
@@ -91,7 +97,7 @@ def main(argv):
     want = set(argv) or {"C13", "C16", "C17"}
     sh(f"git -C {REPO} checkout -- .")
     for pid, name, edits in (list(reversed(M)) if os.environ.get("MUT_ORDER") == "reverse" else M):
-        if pid not in want:
+        if pid not in want or os.environ.get("MUT_ONLY", "") not in name:
             continue
         ok = True
         for rel, old, new in edits:
